@@ -2,7 +2,7 @@
 
 use crate::report::{Local, Reporter};
 use crate::srv;
-use jsonrpsee::core::client::{ClientT, Subscription, SubscriptionClientT};
+use jsonrpsee::core::client::{Subscription, SubscriptionClientT};
 use jsonrpsee::core::params::ObjectParams;
 use jsonrpsee::core::{RpcResult, SubscriptionResult, async_trait};
 use jsonrpsee::proc_macros::rpc;
@@ -227,23 +227,27 @@ fn nesteds() -> Vec<Nested> {
 	]
 }
 
-struct Ctx {
+struct Ctx<C> {
 	rt: tokio::runtime::Runtime,
-	client: WsClient,
+	client: C,
 	log: Log,
 	_handle: jsonrpsee_server::ServerHandle,
 }
 
-fn ctx() -> Ctx {
+fn module(log: &Log) -> jsonrpsee::RpcModule<Impl> {
+	let mut module = PlainServer::into_rpc(Impl(log.clone()));
+	module.merge(UnderServer::into_rpc(Impl(log.clone()))).unwrap();
+	module.merge(DotServer::into_rpc(Impl(log.clone()))).unwrap();
+	module.merge(SlashServer::into_rpc(Impl(log.clone()))).unwrap();
+	module
+}
+
+fn ctx() -> Ctx<WsClient> {
 	let rt = srv::rt();
 	let log: Log = Arc::new(Mutex::new(Vec::new()));
 	let (client, handle) = rt.block_on(async {
-		let mut module = PlainServer::into_rpc(Impl(log.clone()));
-		module.merge(UnderServer::into_rpc(Impl(log.clone()))).unwrap();
-		module.merge(DotServer::into_rpc(Impl(log.clone()))).unwrap();
-		module.merge(SlashServer::into_rpc(Impl(log.clone()))).unwrap();
 		let (stop, handle) = jsonrpsee_server::stop_channel();
-		let svc = jsonrpsee_server::Server::builder().to_service_builder().build(module, stop.clone());
+		let svc = jsonrpsee_server::Server::builder().to_service_builder().build(module(&log), stop.clone());
 		let (a, b) = tokio::io::duplex(1 << 20);
 		tokio::spawn(async move {
 			let _ = jsonrpsee_server::serve_with_graceful_shutdown(a, svc, stop.shutdown()).await;
@@ -252,6 +256,47 @@ fn ctx() -> Ctx {
 		(client, handle)
 	});
 	Ctx { rt, client, log, _handle: handle }
+}
+
+// ---- the HTTP client, bridged in process to the server's tower service (no socket)
+type BridgeFut = std::pin::Pin<Box<dyn std::future::Future<Output = Result<jsonrpsee_http_client::HttpResponse<http_body_util::Full<bytes::Bytes>>, jsonrpsee_http_client::transport::Error>> + Send>>;
+#[derive(Clone)]
+struct Bridge(Arc<dyn Fn(jsonrpsee_http_client::HttpRequest) -> BridgeFut + Send + Sync>);
+impl tower::Service<jsonrpsee_http_client::HttpRequest> for Bridge {
+	type Response = jsonrpsee_http_client::HttpResponse<http_body_util::Full<bytes::Bytes>>;
+	type Error = jsonrpsee_http_client::transport::Error;
+	type Future = BridgeFut;
+	fn poll_ready(&mut self, _cx: &mut std::task::Context<'_>) -> std::task::Poll<Result<(), Self::Error>> {
+		std::task::Poll::Ready(Ok(()))
+	}
+	fn call(&mut self, req: jsonrpsee_http_client::HttpRequest) -> BridgeFut {
+		(self.0)(req)
+	}
+}
+#[derive(Clone)]
+struct BridgeLayer(Bridge);
+impl<S> tower::Layer<S> for BridgeLayer {
+	type Service = Bridge;
+	fn layer(&self, _inner: S) -> Bridge {
+		self.0.clone()
+	}
+}
+
+fn bridge(log: &Log) -> (Bridge, jsonrpsee_server::ServerHandle) {
+	use http_body_util::BodyExt;
+	use tower::Service;
+	let (stop, handle) = jsonrpsee_server::stop_channel();
+	let svc = jsonrpsee_server::Server::builder().to_service_builder().build(module(log), stop);
+	let b = Bridge(Arc::new(move |req: jsonrpsee_http_client::HttpRequest| {
+		let mut svc = svc.clone();
+		Box::pin(async move {
+			let resp = svc.call(req).await.map_err(|e| jsonrpsee_http_client::transport::Error::Url(format!("in-process service failed: {e}")))?;
+			let (parts, body) = resp.into_parts();
+			let bytes = body.collect().await.map(|b| b.to_bytes()).unwrap_or_default();
+			Ok(http::Response::from_parts(parts, http_body_util::Full::new(bytes)))
+		}) as BridgeFut
+	}));
+	(b, handle)
 }
 
 macro_rules! check_call {
@@ -274,7 +319,7 @@ macro_rules! check_call {
 }
 
 /// raw request through the same client: `name` with explicit params, compared with expected result and recorded args
-fn raw_call(rep: &Reporter, local: &mut Local, c: &Ctx, what: &str, name: &str, params: Value, logged_as: &str, exp_args: Value, exp_result: Value) {
+fn raw_call<C: SubscriptionClientT>(rep: &Reporter, local: &mut Local, c: &Ctx<C>, what: &str, name: &str, params: Value, logged_as: &str, exp_args: Value, exp_result: Value) {
 	c.log.lock().unwrap().clear();
 	let got: Result<Value, _> = c.rt.block_on(async {
 		match &params {
@@ -307,7 +352,7 @@ fn raw_call(rep: &Reporter, local: &mut Local, c: &Ctx, what: &str, name: &str, 
 	local.case_unique(&format!("raw:{what}"));
 }
 
-fn collect_items(c: &Ctx, mut sub: Subscription<Item>, n: usize) -> Vec<Item> {
+fn collect_items(c: &Ctx<WsClient>, mut sub: Subscription<Item>, n: usize) -> Vec<Item> {
 	c.rt.block_on(async {
 		let mut v = Vec::new();
 		for _ in 0..n {
@@ -322,61 +367,104 @@ fn collect_items(c: &Ctx, mut sub: Subscription<Item>, n: usize) -> Vec<Item> {
 
 pub fn check(rep: &Reporter) {
 	rep.set_rule(
-		"a fixed family of #[rpc(client, server)] declarations compiled into the harness (0–4 params; trailing Option ×1 and ×2; Option in the middle; param_kind array/map; #[argument(rename)]; camelCase name; aliases; namespaces with separators `_`, `.`, `/`; sync, async, blocking; RpcResult / Result<_, ErrorObjectOwned> and error returns; subscriptions with params, Option tail, map kind, overridden notification name, aliases) served in memory and called through the generated client stubs over a real WsClient; full product of per-type argument alphabets per method (u64/i64/u8 boundaries, f64 incl. −0.0 and 1e308, bool, 6 strings with quotes/backslashes/NUL/astral, vectors, nested struct with enum and map), plus hand-encoded requests for the three spellings of a trailing optional under both encodings, every alias and every namespaced name. Oracle: recorded server arguments == client arguments, client result == server return, subscription items equal and in order.",
+		"a fixed family of #[rpc(client, server)] declarations compiled into the harness (0–4 params; trailing Option ×1 and ×2; Option in the middle; param_kind array/map; #[argument(rename)]; camelCase name; aliases; namespaces with separators `_`, `.`, `/`; sync, async, blocking; RpcResult / Result<_, ErrorObjectOwned> and error returns; subscriptions with params, Option tail, map kind, overridden notification name, aliases) served in memory and called through the generated client stubs over a real WsClient (duplex stream) and a real HttpClient (bridged in process to the server's tower service); full product of per-type argument alphabets per method (u64/i64/u8 boundaries, f64 incl. −0.0 and 1e308, bool, strings with quotes/backslashes/NUL/astral — thorough: all strings of length ≤ 2 over 12 such symbols —, vectors, nested struct with enum and map), plus hand-encoded requests for the three spellings of a trailing optional under both encodings, every alias and every namespaced name. Oracle: recorded server arguments == client arguments, client result == server return, subscription items equal and in order.",
 	);
 	rep.assume("the `programs` quantifier is covered over this fixed family of declarations only");
-	let c = ctx();
+	let thorough = rep.tier.thorough();
 	let mut local = Local::default();
-	let rep2 = rep;
+	// alphabets
+	let u64s: Vec<u64> = if thorough { vec![0, 1, 9, 10, 255, 256, u32::MAX as u64, 1 << 32, (1 << 53) - 1, 1 << 53, (1 << 53) + 1, 1 << 63, u64::MAX - 1, u64::MAX] } else { U64S.to_vec() };
+	let i64s: Vec<i64> = if thorough { vec![i64::MIN, i64::MIN + 1, -(1 << 53) - 1, -256, -1, 0, 1, 255, (1 << 53) + 1, i64::MAX - 1, i64::MAX] } else { I64S.to_vec() };
+	let f64s: Vec<f64> = if thorough { vec![0.0, -0.0, 1.5, 1e308, -2.5e-300, f64::MIN_POSITIVE, f64::MAX, f64::MIN, 5e-324, 0.1, 1e21, 123456789.123456789] } else { F64S.to_vec() };
+	let strs: Vec<String> = if thorough {
+		let sym = ["a", "\"", "\\", "\n", "\u{0}", "é", "\u{1F600}", " ", "/", "\u{2028}", "{", "\u{7f}"];
+		let mut v = vec![String::new()];
+		for a in sym {
+			v.push(a.to_string());
+			for b in sym {
+				v.push(format!("{a}{b}"));
+			}
+		}
+		v
+	} else {
+		STRS.iter().map(|s| s.to_string()).collect()
+	};
+	let c = ctx();
+	stubs(rep, &mut local, &c, "ws", &u64s, &i64s, &f64s, &strs);
+	subs(rep, &mut local, &c);
+	// the same stubs through the HTTP client
+	{
+		let rt = srv::rt();
+		let log: Log = Arc::new(Mutex::new(Vec::new()));
+		let _e = rt.enter();
+		let (b, handle) = bridge(&log);
+		let client = jsonrpsee_http_client::HttpClientBuilder::default()
+			.set_http_middleware(tower::ServiceBuilder::new().layer(BridgeLayer(b)))
+			.build("http://localhost:1")
+			.expect("http client builds");
+		drop(_e);
+		let c = Ctx { rt, client, log, _handle: handle };
+		stubs(rep, &mut local, &c, "http", &u64s, &i64s, &f64s, &strs);
+	}
+	// the notification method name override is what the wire carries: checked through a raw frame in C04; here the stubs suffice
+	rep.merge(local);
+	rep.sample(json!({"method":"opt2","arguments":[u64::MAX, null, "é\"\\"],"expected":"server records the same three values; client receives them back"}));
+	rep.sample(json!({"request":"dotAlias","params":{"a":2,"b":"w"},"expected":"dispatches to dot.echo (aliases are not prefixed by the namespace)"}));
+}
+
+/// Every non-subscription stub and the hand-encoded requests, through any client.
+#[allow(clippy::too_many_arguments)]
+fn stubs<C: SubscriptionClientT + Sync>(rep: &Reporter, local: &mut Local, c: &Ctx<C>, transport: &str, u64s: &[u64], i64s: &[i64], f64s: &[f64], strs: &[String]) {
+	let _ = transport;
 	// ---- stubs, full products
-	check_call!(rep2, local, c, "p0", json!([]), PlainClient::p0(&c.client), 7u64);
-	for a in U64S {
-		check_call!(rep2, local, c, "p1", json!([a]), PlainClient::p1(&c.client, a), a);
-		check_call!(rep2, local, c, "aliased", json!([a]), PlainClient::aliased(&c.client, a), a.wrapping_mul(3));
-		check_call!(rep2, local, c, "plainret", json!([a]), PlainClient::plainret(&c.client, a), a / 2);
-		for b in std::iter::once(None).chain(STRS.iter().map(|s| Some(s.to_string()))) {
-			check_call!(rep2, local, c, "opt1", json!([a, b]), PlainClient::opt1(&c.client, a, b.clone()), (a, b.clone()));
-			check_call!(rep2, local, c, "mapopt", json!([a, b]), PlainClient::mapopt(&c.client, a, b.clone()), (a, b.clone()));
-			check_call!(rep2, local, c, "ns_echo", json!([a, b]), UnderClient::echo(&c.client, a, b.clone()), (a, b.clone()));
-			check_call!(rep2, local, c, "dot.echo", json!([a, b]), DotClient::echo(&c.client, a, b.clone()), (a, b.clone()));
+	check_call!(rep, local, c, "p0", json!([]), PlainClient::p0(&c.client), 7u64);
+	for a in u64s.iter().copied() {
+		check_call!(rep, local, c, "p1", json!([a]), PlainClient::p1(&c.client, a), a);
+		check_call!(rep, local, c, "aliased", json!([a]), PlainClient::aliased(&c.client, a), a.wrapping_mul(3));
+		check_call!(rep, local, c, "plainret", json!([a]), PlainClient::plainret(&c.client, a), a / 2);
+		for b in std::iter::once(None).chain(strs.iter().map(|s| Some(s.to_string()))) {
+			check_call!(rep, local, c, "opt1", json!([a, b]), PlainClient::opt1(&c.client, a, b.clone()), (a, b.clone()));
+			check_call!(rep, local, c, "mapopt", json!([a, b]), PlainClient::mapopt(&c.client, a, b.clone()), (a, b.clone()));
+			check_call!(rep, local, c, "ns_echo", json!([a, b]), UnderClient::echo(&c.client, a, b.clone()), (a, b.clone()));
+			check_call!(rep, local, c, "dot.echo", json!([a, b]), DotClient::echo(&c.client, a, b.clone()), (a, b.clone()));
 			for m in [None, Some(0u64), Some(u64::MAX)] {
-				check_call!(rep2, local, c, "opt2", json!([a, m, b]), PlainClient::opt2(&c.client, a, m, b.clone()), (a, m, b.clone()));
+				check_call!(rep, local, c, "opt2", json!([a, m, b]), PlainClient::opt2(&c.client, a, m, b.clone()), (a, m, b.clone()));
 			}
 		}
-		for s in STRS {
-			check_call!(rep2, local, c, "map2", json!([a, s]), PlainClient::map2(&c.client, a, s.to_string()), (a, s.to_string()));
+		for s in strs.iter().map(|s| s.as_str()) {
+			check_call!(rep, local, c, "map2", json!([a, s]), PlainClient::map2(&c.client, a, s.to_string()), (a, s.to_string()));
 			for o in [None, Some(a)] {
-				check_call!(rep2, local, c, "optmid", json!([o, s]), PlainClient::optmid(&c.client, o, s.to_string()), (o, s.to_string()));
+				check_call!(rep, local, c, "optmid", json!([o, s]), PlainClient::optmid(&c.client, o, s.to_string()), (o, s.to_string()));
 			}
 		}
 	}
-	for a in I64S {
-		for s in STRS {
-			check_call!(rep2, local, c, "p2", json!([a, s]), PlainClient::p2(&c.client, a, s.to_string()), (a, s.to_string()));
+	for a in i64s.iter().copied() {
+		for s in strs.iter().map(|s| s.as_str()) {
+			check_call!(rep, local, c, "p2", json!([a, s]), PlainClient::p2(&c.client, a, s.to_string()), (a, s.to_string()));
 		}
 	}
-	for s in STRS {
-		check_call!(rep2, local, c, "camelCaseName", json!([s]), PlainClient::camel_case(&c.client, s.to_string()), s.to_string());
-		check_call!(rep2, local, c, "ns_sync", json!([s]), UnderClient::sync(&c.client, s.to_string()), s.to_string());
+	for s in strs.iter().map(|s| s.as_str()) {
+		check_call!(rep, local, c, "camelCaseName", json!([s]), PlainClient::camel_case(&c.client, s.to_string()), s.to_string());
+		check_call!(rep, local, c, "ns_sync", json!([s]), UnderClient::sync(&c.client, s.to_string()), s.to_string());
 		let v = vec![s.to_string(), "x".to_string()];
-		check_call!(rep2, local, c, "slash/echo", json!([v]), SlashClient::echo(&c.client, v.clone()), v.clone());
+		check_call!(rep, local, c, "slash/echo", json!([v]), SlashClient::echo(&c.client, v.clone()), v.clone());
 	}
 	for a in [0u8, 255] {
 		for b in [false, true] {
 			for v in [vec![], vec![1u64, u64::MAX]] {
 				for d in nesteds() {
-					check_call!(rep2, local, c, "p4", json!([a, b, v, d]), PlainClient::p4(&c.client, a, b, v.clone(), d.clone()), (a, b, v.clone(), d.clone()));
+					check_call!(rep, local, c, "p4", json!([a, b, v, d]), PlainClient::p4(&c.client, a, b, v.clone(), d.clone()), (a, b, v.clone(), d.clone()));
 				}
 			}
 		}
 	}
-	for f in F64S {
+	for f in f64s.iter().copied() {
 		c.log.lock().unwrap().clear();
 		let got = c.rt.block_on(PlainClient::f1(&c.client, f));
 		let logged = c.log.lock().unwrap().clone();
 		let ok = matches!(&got, Ok(x) if x.to_bits() == f.to_bits()) && logged.len() == 1 && logged[0].1 == json!([f.to_bits()]);
 		if !ok {
-			rep.violation("result-differs:f1", &format!("f1({f:?}): client got {got:?}, server recorded {logged:?}"), json!({"method":"f1","argument_bits": f.to_bits()}));
+			rep.violation("result-differs:f1", &format!("f1({f:?}): client got {got:?}, server recorded {logged:?}"), json!({"method":"f1","argument": format!("{f:?}"), "argument_bits": f.to_bits().to_string()}));
 		}
 		local.case_unique("stub:f1");
 	}
@@ -400,14 +488,14 @@ pub fn check(rep: &Reporter) {
 				vec![(json!([a, "x"]), Some("x".into())), (json!([a, null]), None), (json!([a]), None)]
 			};
 			for (params, b) in spellings {
-				raw_call(rep, &mut local, &c, "optional-spelling", name, params, logged_as, json!([a, b]), json!([a, b]));
+				raw_call(rep, local, c, "optional-spelling", name, params, logged_as, json!([a, b]), json!([a, b]));
 			}
 		}
 	}
-	raw_call(rep, &mut local, &c, "optional-spelling", "opt2", json!([5]), "opt2", json!([5, null, null]), json!([5, null, null]));
-	raw_call(rep, &mut local, &c, "optional-spelling", "opt2", json!([5, 6]), "opt2", json!([5, 6, null]), json!([5, 6, null]));
-	raw_call(rep, &mut local, &c, "optional-spelling", "opt2", json!([5, null, "z"]), "opt2", json!([5, null, "z"]), json!([5, null, "z"]));
-	raw_call(rep, &mut local, &c, "rename", "map2", json!({"first": 3, "type": "t"}), "map2", json!([3, "t"]), json!([3, "t"]));
+	raw_call(rep, local, c, "optional-spelling", "opt2", json!([5]), "opt2", json!([5, null, null]), json!([5, null, null]));
+	raw_call(rep, local, c, "optional-spelling", "opt2", json!([5, 6]), "opt2", json!([5, 6, null]), json!([5, 6, null]));
+	raw_call(rep, local, c, "optional-spelling", "opt2", json!([5, null, "z"]), "opt2", json!([5, null, "z"]), json!([5, null, "z"]));
+	raw_call(rep, local, c, "rename", "map2", json!({"first": 3, "type": "t"}), "map2", json!([3, "t"]), json!([3, "t"]));
 	// ---- aliases and namespaces resolve to the same handler
 	for (alias, logged_as, params, exp) in [
 		("aliased_v2", "aliased", json!([5]), json!(15)),
@@ -423,8 +511,11 @@ pub fn check(rep: &Reporter) {
 			Value::Array(a) if logged_as == "ns_echo" => json!([a[0], a.get(1).cloned().unwrap_or(Value::Null)]),
 			other => other.clone(),
 		};
-		raw_call(rep, &mut local, &c, "alias-or-namespace", alias, params, logged_as, exp_args, exp);
+		raw_call(rep, local, c, "alias-or-namespace", alias, params, logged_as, exp_args, exp);
 	}
+}
+
+fn subs(rep: &Reporter, local: &mut Local, c: &Ctx<WsClient>) {
 	// ---- subscriptions: stub, alias names, map kind, namespaced
 	for a in [0u64, 1, 3] {
 		for b in [None, Some("t\"é".to_string())] {
@@ -432,7 +523,7 @@ pub fn check(rep: &Reporter) {
 			let sub = c.rt.block_on(PlainClient::sub_items(&c.client, a, b.clone()));
 			match sub {
 				Ok(sub) => {
-					let items = collect_items(&c, sub, a as usize);
+					let items = collect_items(c, sub, a as usize);
 					let tag = b.clone().unwrap_or_else(|| "none".into());
 					let exp: Vec<Item> = (0..a).map(|n| Item { n, tag: tag.clone() }).collect();
 					let logged = c.log.lock().unwrap().clone();
@@ -448,7 +539,7 @@ pub fn check(rep: &Reporter) {
 		let sub = c.rt.block_on(PlainClient::sub_map(&c.client, a, "m".into()));
 		match sub {
 			Ok(sub) => {
-				let items = collect_items(&c, sub, a as usize);
+				let items = collect_items(c, sub, a as usize);
 				let exp: Vec<Item> = (0..a).map(|n| Item { n, tag: "m".into() }).collect();
 				if items != exp {
 					rep.violation("subscription:map-kind", &format!("sub_map({a}): items {items:?}, expected {exp:?}"), json!({"method":"submap"}));
@@ -463,7 +554,7 @@ pub fn check(rep: &Reporter) {
 			let sub: Result<Subscription<Item>, _> = c.rt.block_on(c.client.subscribe(subname, rpc_params![a], unsub));
 			match sub {
 				Ok(sub) => {
-					let items = collect_items(&c, sub, a as usize);
+					let items = collect_items(c, sub, a as usize);
 					let exp: Vec<Item> = (0..a).map(|n| Item { n, tag: "dot".into() }).collect();
 					let logged = c.log.lock().unwrap().clone();
 					if items != exp || logged.first().map(|l| l.0.as_str()) != Some("dot.sub") {
@@ -485,7 +576,7 @@ pub fn check(rep: &Reporter) {
 			let tag = params.get(1).and_then(|x| x.as_str()).unwrap_or("none").to_string();
 			match sub {
 				Ok(sub) => {
-					let items = collect_items(&c, sub, a as usize);
+					let items = collect_items(c, sub, a as usize);
 					let exp: Vec<Item> = (0..a).map(|n| Item { n, tag: tag.clone() }).collect();
 					let logged = c.log.lock().unwrap().clone();
 					if items != exp || logged.first().map(|l| l.0.as_str()) != Some("subscribe_items") {
@@ -497,8 +588,4 @@ pub fn check(rep: &Reporter) {
 			local.case_unique("subscription:alias");
 		}
 	}
-	// the notification method name override is what the wire carries: checked through a raw frame in C04; here the stubs suffice
-	rep.merge(local);
-	rep.sample(json!({"method":"opt2","arguments":[u64::MAX, null, "é\"\\"],"expected":"server records the same three values; client receives them back"}));
-	rep.sample(json!({"request":"dotAlias","params":{"a":2,"b":"w"},"expected":"dispatches to dot.echo (aliases are not prefixed by the namespace)"}));
 }
